@@ -41,6 +41,10 @@ CHECKS = [
      'technique': 'deterministic simulation over the interpreter hash seed: one fresh interpreter per seeded PYTHONHASHSEED processing the same corpus, cross-run equality of token trees/sources/values; EBNF-rendered operator trees, layout invariance and source round trip inside every run',
      'text': 'The simulated dimension is the hash seed the property names: each run is a fresh interpreter with its own PYTHONHASHSEED that builds the four parsers and processes the same seed-derived corpus; token trees, sources, round-trip trees and values must be identical across all interpreters while the tokenizer pattern text may differ (the number of distinct patterns reached is reported). Inside every run the tree must equal the operator tree the text was rendered from by the EBNF precedence/associativity tables, be invariant under whitespace/comment placement, and its source must re-parse to the same tree and value; non-associative chains must be rejected.',
      'note': 'Trusts the transcription of the operator tables; the grouping clauses are schedule-independent and ride along, the cross-seed comparison is what the simulated dimension decides.'},
+    {'id': 'C20', 'level': 'exploration', 'design_ref': 'DESIGN.md section 2, C20',
+     'technique': 'deterministic simulation: seeded schema attach/detach/swap histories over reused node trees, Selectors and parsers; clean-room differential, schema-processor decode comparison, schema-less node-list comparison',
+     'text': 'Generated XSD schemas (built-in simple types, list, union, restriction, simple-content extension), a second schema for the same vocabulary and instances valid against both; histories evaluate data()/instance-of/arithmetic/structural paths on reused trees (ElementTree, lxml, prebuilt node trees) with proxy A, proxy B or none. After every operation the result must equal a clean-room evaluation under the same configuration, typed values must equal what xmlschema decodes and have the datatype class of the declared type, and structural paths must select the same nodes as without a schema.',
+     'note': 'Typed values are compared for types with an unambiguous Python mapping; attribute value constraints are not generated (data-model question).'},
 ]
 
 NOT_APPLICABLE = [
